@@ -161,7 +161,14 @@ class Exec:
         w.armed = True
         # reference rows: own evaluator, own aggregator, own directory, no scheduler
         self.ref = {}
+        cache = plan.get("ref_cache")
         for lt in sorted({bool(f.get("log_times")) for f in plan["files"].values()}):
+            if cache is not None and str(int(lt)) in cache:
+                # crash-point sweeps execute one history many times: the sequential reference
+                # (a function of specification and inputs only) is computed by the first,
+                # fault-free execution in its own image and handed to the others
+                self.ref[lt] = cache[str(int(lt))]
+                continue
             refdir = os.path.join(self.root, f"ref{int(lt)}")
             save_pool = w.pool_mode
             w.pool_mode = "serial"
@@ -530,6 +537,13 @@ class Exec:
             rows, err = self.data_rows(fname)
             touched = any(fname in sess["aggs"] for ph in plan["phases"] for sess in ph["sessions"])
             if not touched:
+                continue
+            # the property speaks about the state after a session that ran to completion: a
+            # history whose last session on this file was killed or interrupted (only a
+            # minimiser can produce one) is outside the quantifier - no verdict for the file
+            last_sess = [sess for ph in plan["phases"] for sess in ph["sessions"] if fname in sess["aggs"]][-1]
+            if last_sess.get("end", "graceful") != "graceful":
+                self.note("file_not_judged_last_session_faulted")
                 continue
             if err is not None:
                 self.v("row_intact", f"{fname}: {err}")
@@ -918,6 +932,8 @@ class Exec:
             "final_rows": self.final_stats,
             "files_digest": _h([(f, model.read_bytes(self.path(f))) for f in sorted(self.plan["files"])]),
         }
+        if self.plan.get("want_ref"):
+            res["ref"] = {str(int(lt)): r for lt, r in self.ref.items()}
         return res
 
 
